@@ -353,7 +353,7 @@ func oracleC19(cfg []string, results []string) string {
 // ---------------------------------------------------------------------------------------------------
 
 func genC09(tier string, seed uint64, emit func(string)) {
-	creds := []string{"none", "plaintext", "selfsigned", "foreign", "expired", "wrongcn", "intercn", "good", "garbage", "abort", "stall"}
+	creds := []string{"none", "plaintext", "selfsigned", "foreign", "expired", "wrongcn", "intercn", "straycn", "straygood", "good", "garbage", "abort", "stall"}
 	// (tlsfiles: the TLS configuration built by the framework from certificate, key and CA files, with a host trust
 	// store that contains the foreign CA)
 	for _, cfg := range []string{"plain tls", "plain tls cn=client", "plain tls cn=client pw=secret", "tls cn=client", "plain tlsfiles", "tlsfiles cn=client"} {
@@ -423,7 +423,7 @@ func oracleC09(cfg []string, results []string) string {
 			running = false
 		case "tlsbad":
 			kind := f[1]
-			mustReject := kind != "stall" && !(kind == "wrongcn" && !rule) && !(kind == "intercn" && !rule)
+			mustReject := kind != "stall" && !((kind == "wrongcn" || kind == "intercn" || kind == "straycn" || kind == "straygood") && !rule)
 			if mustReject && strings.HasPrefix(v, "served") {
 				return fmt.Sprintf("fail:a TLS client with credentials '%s' was served (%s)", kind, v)
 			}
